@@ -53,7 +53,7 @@
  "name": "mkdir_protocol_full",
  "props": ["C10"],
  "level": "P",
- "tier": "wip",
+ "tier": "quick",
  "harness": "h_mkdir",
  "enforce": ["ext2fs_mkdir"],
  "unwind": 8,
